@@ -1,3 +1,165 @@
-(* C15 - stub, being written *)
-From Coq Require Import List ZArith.
-From EpyV Require Import Lib.Prelude Model.Shuffle Model.Generators.
+(* C15 - network generators deliver the structures they promise: the part that is the repository's own logic.
+   Only statements here; every proof is [exact <lemma of Proofs/Generators*.v>] or short glue.
+   PARTIAL: the clauses that are facts about networkx's generators (ER/BA: exactly N nodes, no parallel edges, no
+   self-loops; configuration_model: a node's degree is at most its stub count; connected_components returns the
+   connected components) are not theorems: they appear as hypotheses (the [conn ... (induced ...)] contracts below)
+   or are checked on every generated sample by the direct oracle of harness/c15.py. *)
+From Coq Require Import List ZArith QArith Bool Arith Lia.
+From EpyV Require Import Lib.Prelude Model.Shuffle Model.Generators Proofs.Shuffle Proofs.Generators Proofs.GeneratorsAssembly.
+Import ListNotations.
+Local Open Scope nat_scope.
+
+(* ---- NetworkGenerator: limit and parameters (generator.py) *)
+
+(* a generator with limit L answers its first L requests with a network and every later one with None
+   (generate) / StopIteration (__next__); without a limit it always answers; set() and mutations of the caller's
+   dict do not count.  For every program of set / mutate / generate / next and every starting state. *)
+Theorem C15_quota : forall s ops,
+  map is_graph (q_run s ops) =
+    match q_rem s with
+    | None => repeat true (gens ops)
+    | Some L => repeat true (Nat.min L (gens ops)) ++ repeat false (gens ops - L)
+    end
+  /\ Forall2 (fun o out => match out with ONone => o = QGen | OStop => o = QNext | OGraph _ => True end)
+             (filter is_gen ops) (q_run s ops).
+Proof. intros s ops. split; [rewrite q_run_answers; apply answers_spec | apply q_run_kind]. Qed.
+
+(* once set() has been called the networks are generated from the caller's dict as it was at the most recent
+   set(): later mutations of that dict are not seen ([snaps] has no notion of aliasing) *)
+Theorem C15_params_copy : forall s ops,
+  graph_params (q_run (fst (q_step s QSet)) ops)
+  = firstn (budget (q_rem s) ops) (snaps (q_caller s) (q_caller s) ops).
+Proof. intros s ops. rewrite q_run_params by reflexivity. reflexivity. Qed.
+
+(* the same for a generator whose parameters are its own object (every state reached after a set) *)
+Theorem C15_params_copy_own : forall s ops, q_alias s = false ->
+  graph_params (q_run s ops) = firstn (budget (q_rem s) ops) (snaps (q_own s) (q_caller s) ops).
+Proof. exact q_run_params. Qed.
+
+(* FixedNetwork: every network handed out equals the prototype, and the limit is respected *)
+Theorem C15_fixed_copy : forall proto limit ops,
+  (forall g, In (Some g) (fixed_outputs proto limit ops) -> g = proto)
+  /\ map (fun o => match o with Some _ => true | None => false end) (fixed_outputs proto limit ops)
+     = match limit with
+       | None => repeat true (gens ops)
+       | Some L => repeat true (Nat.min L (gens ops)) ++ repeat false (gens ops - L)
+       end.
+Proof. intros proto limit ops. split; [apply fixed_all_equal | rewrite fixed_answers; apply answers_spec]. Qed.
+
+(* ---- PLC: the degree sequence handed to the configuration model (plc_generator.py:78-123) *)
+
+(* whenever the loop ends, for every model function p and every sequence of draws with rng.integers(1, 100) in
+   1..99: N degrees, each in 1..99, with an even sum *)
+Theorem C15_plc_degree_bound : forall p N evs ns rest, Forall ev_ok evs -> plc_degrees p N evs = Some (ns, rest) ->
+  Forall (fun k => 1 <= k <= 99) ns /\ length ns = N /\ Nat.even (total ns) = true.
+Proof. exact plc_degrees_spec. Qed.
+
+(* ---- core-periphery (coreperiphery_generator.py:92-131) *)
+
+(* the nodes are 0..n-1 in this order and every edge joins two of them *)
+Theorem C15_cp_labels : forall i, NoDup (cp_order i) ->
+  let g := cp_generate i in let n := length (cp_order i) in
+  map v_label (g_nodes g) = zseq 0 n /\
+  forall e, In e (g_edges g) -> In (fst e) (zseq 0 n) /\ In (snd e) (zseq 0 n).
+Proof. intros i Hn. split; [exact (cp_nodes_labels i Hn) | exact (cp_edges_closed i)]. Qed.
+
+(* every node is marked core (0) or periphery (1); the extractor functions return exactly the nodes with that mark;
+   node j carries the mark of the node of the composed network it was renumbered from (core iff label < N_core) *)
+Theorem C15_cp_origin : forall i,
+  let g := cp_generate i in
+  (forall v, In v (g_nodes g) -> v_origin v = 0%Z \/ v_origin v = 1%Z)
+  /\ (forall o l, In l (nodes_of_origin g o) <-> exists v, In v (g_nodes g) /\ v_label v = l /\ v_origin v = o)
+  /\ (NoDup (cp_order i) -> forall j, j < length (cp_order i) ->
+        nth j (g_nodes g) (0%Z, 0%Z, false) = (Z.of_nat j, cp_origin (cp_Nc i) (nth j (cp_order i) 0%Z), false)).
+Proof.
+  intros i. split; [exact (cp_origin_01 i)|]. split; [exact (nodes_of_origin_spec (cp_generate i))|].
+  intros Hn j Hj. exact (cp_node_nth i j Hn Hj).
+Qed.
+
+(* connected, given the contract of connected_components: the component that was kept is connected *)
+Theorem C15_cp_connected : forall i,
+  conn (induced (cp_all_edges i) (cp_order i)) (cp_order i) ->
+  conn (g_edges (cp_generate i)) (map v_label (g_nodes (cp_generate i))).
+Proof. exact cp_connected. Qed.
+
+(* ---- modular (modular_generator.py:97-146) *)
+
+(* each satellite k is joined to the centre by exactly one edge (n, m), the k-th link; no other edge of the
+   network joins satellite k to the centre *)
+Theorem C15_mod_one_link : forall i, mod_wf i -> forall k, k < length (md_sats i) ->
+  exists n m, in_sat (md_Nc i) (md_Ns i) k n /\ in_centre (md_Nc i) m /\ In (n, m) (mod_links i) /\
+    has_edge (g_edges (mod_generate i)) n m = true /\
+    forall x y, has_edge (g_edges (mod_generate i)) x y = true ->
+                in_sat (md_Nc i) (md_Ns i) k x -> in_centre (md_Nc i) y -> x = n /\ y = m.
+Proof. exact mod_one_link. Qed.
+
+(* no edge joins two different satellites *)
+Theorem C15_mod_no_satellite_edge : forall i x y k k', mod_wf i -> has_edge (g_edges (mod_generate i)) x y = true ->
+  in_sat (md_Nc i) (md_Ns i) k x -> in_sat (md_Nc i) (md_Ns i) k' y -> k = k'.
+Proof. exact mod_no_sat_sat. Qed.
+
+(* the endpoints of the links, and only those, carry the core-link flag *)
+Theorem C15_mod_flags : forall i v, In v (g_nodes (mod_generate i)) ->
+  (v_flag v = true <-> exists l, In l (mod_links i) /\ (fst l = v_label v \/ snd l = v_label v)).
+Proof. exact mod_flags. Qed.
+
+(* the origin mark is 0 on the centre's block of labels and k+1 on satellite k's block *)
+Theorem C15_mod_origin : forall i v, mod_wf i -> In v (g_nodes (mod_generate i)) ->
+  (v_origin v = 0%Z /\ in_centre (md_Nc i) (v_label v))
+  \/ exists k, k < length (md_sats i) /\ v_origin v = Z.of_nat (S k) /\ in_sat (md_Nc i) (md_Ns i) k (v_label v).
+Proof. exact mod_origin_blocks. Qed.
+
+(* every module is connected within the result, given the contract of connected_components *)
+Theorem C15_mod_modules_connected : forall i,
+  (conn (induced (m_edges (md_centre i)) (m_order (md_centre i))) (m_order (md_centre i)) -> NoDup (m_order (md_centre i)) ->
+   conn (g_edges (mod_generate i)) (mod_centre_nodes i))
+  /\ forall k m, nth_error (md_sats i) k = Some m ->
+       conn (induced (m_edges m) (m_order m)) (m_order m) -> NoDup (m_order m) ->
+       conn (g_edges (mod_generate i)) (module_nodes (md_Ns i) m (sat_offset (md_Nc i) (md_Ns i) k)).
+Proof. exact mod_modules_connected. Qed.
+
+(* ---- non-vacuity *)
+
+(* quota and copying: constructor dict [1;2], limit 2; set, mutate, generate, next, generate *)
+Example C15_example_quota :
+  q_run (q_init true [1; 2]%Z (Some 2)) [QSet; QMutate 0 9%Z; QGen; QNext; QGen]
+  = [OGraph [1; 2]%Z; OGraph [1; 2]%Z; ONone].
+Proof. reflexivity. Qed.
+
+(* PLC: a rejected draw, an odd sum repaired twice *)
+Example C15_example_plc :
+  let evs := [PK 1 (3#4); PK 1 (1#4); PK 2 (1#4); PIdx 0; PK 1 0; PIdx 0; PK 1 0] in
+  Forall ev_ok evs /\ plc_degrees (ptab [1#2; 1#2]) 2 evs = Some ([1; 1], []).
+Proof. cbv zeta. split; [repeat constructor; unfold deg_ok; lia | reflexivity]. Qed.
+
+(* core-periphery: one core node, two periphery nodes, one cross link; the hypotheses hold and the result is the edge 0-1 *)
+Example C15_example_cp :
+  let i := {| cp_Nc := 1; cp_Np := 2; cp_core := []; cp_per := []; cp_phi := 1#4; cp_rs := [1#4; 1#2];
+              cp_comps := [[0; 1]; [2]]%Z; cp_order := [0; 1]%Z |} in
+  NoDup (cp_order i) /\ conn (induced (cp_all_edges i) (cp_order i)) (cp_order i) /\
+  cp_generate i = {| g_nodes := [(0, 0, false); (1, 1, false)]%Z; g_edges := [(0, 1)]%Z |}.
+Proof.
+  cbv zeta. split; [|split; [|reflexivity]].
+  - repeat constructor; cbn; intuition discriminate.
+  - assert (E : has_edge (induced (cp_all_edges {| cp_Nc := 1; cp_Np := 2; cp_core := []; cp_per := []; cp_phi := 1#4; cp_rs := [1#4; 1#2];
+              cp_comps := [[0; 1]; [2]]%Z; cp_order := [0; 1]%Z |}) [0; 1]%Z) 0 1 = true) by reflexivity.
+    intros x y Hx Hy. cbn in Hx, Hy.
+    destruct Hx as [<-|[<-|[]]], Hy as [<-|[<-|[]]].
+    + constructor.
+    + eapply path_step; [exact E | constructor].
+    + eapply path_step; [rewrite has_edge_sym; exact E | constructor].
+    + constructor.
+Qed.
+
+(* modular: a centre of two nodes, one satellite whose largest component is a single node, linked 2-1 *)
+Example C15_example_mod :
+  let i := {| md_Nc := 2; md_Ns := 2;
+              md_centre := {| m_edges := [(0, 1)]%Z; m_comps := [[0; 1]]%Z; m_order := [0; 1]%Z |};
+              md_sats := [{| m_edges := []; m_comps := [[0]; [1]]%Z; m_order := [0]%Z |}];
+              md_choices := [(1, 0)] |} in
+  mod_wf i /\
+  mod_generate i = {| g_nodes := [(0, 0, false); (1, 0, true); (2, 1, true)]%Z; g_edges := [(0, 1); (2, 1)]%Z |}.
+Proof.
+  cbv zeta. split; [|reflexivity].
+  constructor; cbn; [lia | repeat constructor; cbn; lia | lia].
+Qed.
